@@ -523,6 +523,138 @@ def wrappers(ctx: Ctx) -> None:
             sim.run(until=lambda: d.done, max_time=sim.clock + 5)
 
 
+def wrapper_histories(ctx: Ctx) -> None:
+    """The public request-response wrappers over HISTORIES on one session: a request the device never answered (ends with a timeout error exactly at
+    the wrapper's timeout - 10 s, 60 s, the caller's value - wherever on the clock it started), then the same request again, answered at once
+    (completes with that answer); two overlapping calls of one wrapper, one of them cancelled by its caller before the device answers (the other still
+    gets its answer, and the device received one request per call)."""
+    from aioesphomeapi import api_pb2 as pb
+    from aioesphomeapi.core import TimeoutAPIError
+
+    res = ctx.res
+    idx = 0
+    wrappers_ = {
+        "device_info": (lambda cli: cli.device_info(), 10.0, "DeviceInfoRequest", lambda c: c.send("DeviceInfoResponse", name="dev", friendly_name="F"),
+                        lambda r: r.friendly_name == "F"),
+        "list_entities": (lambda cli: cli.list_entities_services(), 60.0, "ListEntitiesRequest",
+                          lambda c: (c.send("ListEntitiesSensorResponse", key=1, object_id="a", name="A"), c.send("ListEntitiesDoneResponse")), lambda r: len(r[0]) == 1),
+        "va_config(7.5)": (lambda cli: cli.get_voice_assistant_configuration(7.5), 7.5, "VoiceAssistantConfigurationRequest",
+                           lambda c: c.send("VoiceAssistantConfigurationResponse", max_active_wake_words=2), lambda r: r.max_active_wake_words == 2),
+        "va_config(0.75)": (lambda cli: cli.get_voice_assistant_configuration(0.75), 0.75, "VoiceAssistantConfigurationRequest",
+                            lambda c: c.send("VoiceAssistantConfigurationResponse", max_active_wake_words=2), lambda r: r.max_active_wake_words == 2),
+    }
+    for framing in ("plain", "noise"):
+        for name, (call, bound, reqname, answer, good) in wrappers_.items():
+            for offset in (0.0, 0.4, 0.998):
+                idx += 1
+                if not ctx.mine(idx):
+                    continue
+                with Sim() as sim:
+                    cfg = DeviceConfig(answer_ping=True)
+                    if framing == "noise":
+                        cfg.noise_psk = PSK
+                    mode = {"answer": False}
+                    seen: list[float] = []
+
+                    def handler(c: Any, m: Any) -> None:
+                        seen.append(sim.clock)
+                        if mode["answer"]:
+                            answer(c)
+
+                    cfg.handlers[reqname] = handler
+                    sim.device(cfg)
+                    cli = sim.client(keepalive=20.0, **({"noise_psk": base64.b64encode(PSK).decode()} if framing == "noise" else {}))
+                    c0 = sim.call("connect", lambda: cli.connect(login=False))
+                    sim.run(until=lambda: c0.done, max_time=sim.clock + 50)
+                    if c0.outcome != "ok":
+                        res.inconclusive.append(f"wrapper histories: connect failed {c0.exc!r}")
+                        continue
+                    sim.run_for(offset)       # (where on the clock the call starts must not matter)
+                    case = {"script": None, "wrapper": name, "framing": framing, "clock_offset": offset}
+                    a = sim.call(name, lambda: call(cli))
+                    sim.run(until=lambda: a.done, max_time=sim.clock + bound + 30)
+                    res.evaluations += 1
+                    res.count("workload/wrapper-histories")
+                    res.sig("wrapper-history", name, framing, offset)
+                    if not a.done or not isinstance(a.exc, TimeoutAPIError):
+                        res.violation("C11/public-wrapper/unanswered-not-timeout", f"{name} against a device that does not answer it: {a.brief()}", case, trace=sim.trace(30))
+                        continue
+                    if abs((a.t_ret - a.t_call) - bound) > 1e-6:
+                        res.violation("C11/timeout-instant", f"{name} (timeout {bound}s) started at clock {a.t_call:.3f}, unanswered: timed out after "
+                                      f"{a.t_ret - a.t_call:.6f}s", case, trace=sim.trace(30))
+                    # the same request again; this time the device answers at once
+                    mode["answer"] = True
+                    b = sim.call(name + "#2", lambda: call(cli))
+                    sim.run(until=lambda: b.done, max_time=sim.clock + bound + 30)
+                    if b.outcome != "ok" or not good(b.result):
+                        res.violation("C11/missed-response", f"{name}: first call timed out unanswered; the same call again was answered at once by the device but ended "
+                                      f"{b.brief()}", case, trace=sim.trace(30))
+                    elif abs(b.t_ret - b.t_call) > 1e-6:
+                        res.violation("C11/completion-instant", f"{name}#2 answered at once completed after {b.t_ret - b.t_call:.6f}s", case)
+                    # two overlapping calls; the caller of the first gives up before the device answers
+                    mode["answer"] = False
+                    n_seen = len(seen)
+                    x = sim.call(name + "#x", lambda: call(cli))
+                    y = sim.call(name + "#y", lambda: call(cli))
+                    sim.run_for(0.2)
+                    sim.cancel(x)
+                    sim.run_for(0.1)
+                    conn = sim.conns[0]
+                    dconn = sim.devices[0].conn
+                    dconn.outbox = []
+                    answer(dconn)
+                    out, dconn.outbox = dconn.outbox, None
+                    dconn.deliver_items(out, 0.0)
+                    sim.run(until=lambda: x.done and y.done, max_time=sim.clock + bound + 30)
+                    if x.outcome != "cancelled":
+                        res.violation("C11/cancel-not-propagated", f"{name}#x was cancelled by its caller but ended {x.brief()}", case)
+                    if y.outcome != "ok" or not good(y.result):
+                        res.violation("C11/call-disturbed-by-sibling", f"two overlapping {name} calls, the first cancelled by its caller; the device then answered: the second "
+                                      f"ended {y.brief()}", case, trace=sim.trace(30))
+                    if len(seen) - n_seen != 2:
+                        res.violation("C11/request-not-written", f"two overlapping {name} calls were made; the device received {len(seen) - n_seen} requests", case)
+                    d = sim.call("bye", lambda: cli.disconnect(force=True))
+                    sim.run(until=lambda: d.done, max_time=sim.clock + 5)
+    # a device that is alive (answers every ping of a short keep-alive) but slow on one request: an answer arriving at 0.65 x the wrapper's timeout -
+    # later than the keep-alive's own dead-peer time - still completes the call, at its arrival
+    for framing in ("plain", "noise"):
+        for name, (call, bound, reqname, answer, good) in wrappers_.items():
+            idx += 1
+            if not ctx.mine(idx):
+                continue
+            with Sim() as sim:
+                cfg = DeviceConfig(answer_ping=True)
+                if framing == "noise":
+                    cfg.noise_psk = PSK
+                delay = round(0.65 * bound, 3)
+
+                def slow(c: Any, m: Any, delay: float = delay) -> None:
+                    c.outbox = []
+                    answer(c)
+                    out, c.outbox = c.outbox, None
+                    c.deliver_items(out, delay)
+
+                cfg.handlers[reqname] = slow
+                sim.device(cfg)
+                K = round(bound / 10.0, 3)     # dead-peer time 4.5 K = 0.45 x bound < delay
+                cli = sim.client(keepalive=K, **({"noise_psk": base64.b64encode(PSK).decode()} if framing == "noise" else {}))
+                c0 = sim.call("connect", lambda: cli.connect(login=False))
+                sim.run(until=lambda: c0.done, max_time=sim.clock + 50)
+                a = sim.call(name, lambda: call(cli))
+                sim.run(until=lambda: a.done, max_time=sim.clock + bound + 30)
+                res.evaluations += 1
+                res.count("workload/wrapper-histories/slow-answer-on-live-session")
+                res.sig("wrapper-slow", name, framing)
+                case = {"script": None, "wrapper": name, "framing": framing, "keepalive": K, "answered_after": delay}
+                if a.outcome != "ok" or not good(a.result):
+                    res.violation("C11/missed-response", f"{name} (timeout {bound}s) answered after {delay}s by a device that answers every ping (keepalive {K}s): "
+                                  f"{a.brief()} after {0 if a.t_ret is None else a.t_ret - a.t_call:.3f}s", case, trace=sim.trace(30))
+                elif abs((a.t_ret - a.t_call) - delay) > 2e-3:
+                    res.violation("C11/completion-instant", f"{name} answered after {delay}s completed after {a.t_ret - a.t_call:.6f}s", case)
+                d = sim.call("bye", lambda: cli.disconnect(force=True))
+                sim.run(until=lambda: d.done, max_time=sim.clock + 5)
+
+
 def shard(ctx: Ctx) -> None:
     from vf.sim import device as _device
 
@@ -543,6 +675,7 @@ def shard(ctx: Ctx) -> None:
                 one(ctx, script, "small-permutations-sample")
     if ctx.shard == 0:
         wrappers(ctx)
+    wrapper_histories(ctx)
     # the session ends by ping timeout / by the application's own graceful disconnect while calls are outstanding
     idx = 0
     for cause in ("pingfail", "disconnect"):
